@@ -769,7 +769,9 @@ def input_dtype(spec, rank, name):
 
 def input_value(spec, rank, name):
     """deterministic small data for input `name` of `rank`, of the input's dtype"""
-    rng = random.Random(f"in:{spec.get('seed', 0)}:{spec.get('index', 0)}:{rank}:{name}")
+    salt = (spec.get("input_salt") or {}).get(f"{rank}:{name}")     # the caller replaced this input
+    rng = random.Random(f"in:{spec.get('seed', 0)}:{spec.get('index', 0)}:{rank}:{name}"
+                        + (f":{salt}" if salt else ""))
     vals = [rng.randint(-3, 3) for _ in range(spec["n"])]
     if spec.get("scalar"):
         vals = vals[0]
@@ -1516,9 +1518,75 @@ def samearray_family():
                 idx += 1
 
 
+def with_idle_rank(spec, pos):
+    """the same program with one more rank, inserted at position `pos`, that joins every
+    collective call but has NO outputs (an I/O / spare rank): nothing to compute, no messages"""
+    import copy
+    sp = copy.deepcopy(spec)
+    for rk in sp["ranks"]:
+        for nd in rk["nodes"]:
+            if nd["op"] == "send" and nd["dst"] >= pos:
+                nd["dst"] += 1
+            if nd["op"] == "recv" and nd["src"] >= pos:
+                nd["src"] += 1
+    sp["ranks"].insert(pos, {"nodes": [], "outputs": []})
+    sp["nranks"] = spec["nranks"] + 1
+    return sp
+
+
+def idle_family():
+    """Valid programs over 2..4 ranks in which some ranks have an EMPTY outputs dict: an idle rank
+    at every position (also rank 0, the root of the collectives) next to communicating / not
+    communicating ranks, two idle ranks, only idle ranks.  (A rank without outputs cannot send or
+    receive: sends and receives exist only as far as an output reaches them.)"""
+    idx = 0
+    bases = []
+    # one rank alone; ping-pong; one-way message; ring of three
+    bases.append({"nranks": 1, "n": 2, "tags": [["s", "t0"]], "topology": "none",
+                  "ranks": [{"nodes": [{"op": "input", "name": "x"}, {"op": "addc", "a": 0, "c": 1}],
+                             "outputs": [["res", 1]]}]})
+    pp = []
+    for r in range(2):
+        o = 1 - r
+        pp.append({"nodes": [{"op": "input", "name": "x"},
+                             {"op": "recv", "src": o, "tag": o, "variant": 0},
+                             {"op": "addc", "a": 0, "c": 2},
+                             {"op": "send", "data": 2, "dst": o, "tag": r, "pass": 0},
+                             {"op": "add", "a": 3, "b": 1}], "outputs": [["res", 4]]})
+    bases.append({"nranks": 2, "n": 2, "tags": [["s", "a"], ["s", "b"]], "topology": "pingpong", "ranks": pp})
+    bases.append({"nranks": 2, "n": 2, "tags": [["s", "a"]], "topology": "oneway", "ranks": [
+        {"nodes": [{"op": "input", "name": "x"}, {"op": "mulc", "a": 0, "c": 3},
+                   {"op": "send", "data": 1, "dst": 1, "tag": 0, "pass": 0}], "outputs": [["res", 2]]},
+        {"nodes": [{"op": "input", "name": "x"}, {"op": "recv", "src": 0, "tag": 0, "variant": 0},
+                   {"op": "add", "a": 0, "b": 1}], "outputs": [["res", 2]]}]})
+    ring = next(sp for sp in sametag_family() if sp["nranks"] == 3)
+    bases.append({k: ring[k] for k in ("nranks", "n", "tags", "topology", "ranks")})
+    for b in bases:
+        variants = []
+        for pos in range(b["nranks"] + 1):
+            variants.append(((pos,), with_idle_rank(b, pos)))
+        if b["nranks"] <= 2:
+            for pos in range(b["nranks"] + 1):
+                for pos2 in range(pos + 1, b["nranks"] + 2):
+                    variants.append(((pos, pos2), with_idle_rank(with_idle_rank(b, pos), pos2)))
+        for where, sp in variants:
+            if sp["nranks"] > 4:
+                continue
+            sp.update(seed=0, index=idx, profile="idle",
+                      family={"base": b["topology"], "idle_ranks": list(where)})
+            yield sp
+            idx += 1
+    for nranks in (2, 3):
+        yield {"nranks": nranks, "n": 2, "tags": [["s", "t0"]], "topology": "none",
+               "ranks": [{"nodes": [], "outputs": []} for _ in range(nranks)],
+               "seed": 0, "index": idx, "profile": "idle", "family": {"base": "nothing", "idle_ranks": list(range(nranks))}}
+        idx += 1
+
+
 def families():
     """all hand-built families, as (profile, spec) — every spec carries its own 'profile'/'index'"""
-    for fam in (reuse_family, fanin_family, datawrapper_family, samearray_family, kinds_family, sametag_family):
+    for fam in (reuse_family, fanin_family, datawrapper_family, samearray_family, kinds_family, sametag_family,
+                idle_family):
         yield from fam()
 
 
